@@ -53,4 +53,3 @@ func c20Addr(name string, kinds int) (netip.Addr, int) {
 		return ad, k
 	}
 }
-
